@@ -185,7 +185,7 @@ def small_tree_enumeration(level: int) -> List[Item]:
         return P.value(l[1])
 
     combos = list(itertools.product(leaves, repeat=3)) if level >= 2 else list(itertools.product(leaves[:4], repeat=3))
-    for kind in ("switch", "switch_nodef", "coalesce", "case", "tuple", "apply", "bind", "with", "funapp", "map"):
+    for kind in ("switch", "switch_nodef", "switch_compound", "coalesce", "case", "tuple", "apply", "bind", "with", "funapp", "map"):
         for a, b, c in combos:
             P = Prog()
             x, y, z = mk_leaf(P, a), mk_leaf(P, b), mk_leaf(P, c)
@@ -193,6 +193,9 @@ def small_tree_enumeration(level: int) -> List[Item]:
                 r = P.switch(x, [("x", y), (1, P.value("one")), (None, P.value("none"))], z)
             elif kind == "switch_nodef":
                 r = P.switch(x, [("x", y), (0, z)])
+            elif kind == "switch_compound":
+                # a derived dispatch: when it cannot be evaluated the failure is a wrapped EvaluationError
+                r = P.switch(P.apply(x, P.fnvalue("ident")), [("x", y), (1, P.value("one"))], z)
             elif kind == "coalesce":
                 r = P.coalesce([x, y, z])
             elif kind == "case":
@@ -413,7 +416,7 @@ def catch_unsafe_program(prog) -> Optional[str]:
 
 
 def c01_classify(prog, meta, what):
-    return catch_unsafe_program(prog)
+    return catch_unsafe_program(prog) or brace_resubstitution_program(prog)
 
 
 def nontrivial_cache(prog, impl):
@@ -595,8 +598,22 @@ def c03_phase2(items, impl, model, rng, tier) -> List[Item]:
             ro = sort_json(ref_restrict(o, sorted(K)))
             base = len(p2["ops"])
             p2["ops"] += [{"op": "reset"}, {"op": "keys", "n": root, "o": o}, {"op": "evaluate", "n": root, "o": o},
-                          {"op": "reset"}, {"op": "keys", "n": root, "o": ro}, {"op": "evaluate", "n": root, "o": ro}]
-            chk = {"K": sorted(K), "o": o, "keys": base + 1, "eval": base + 2, "rkeys": base + 4, "reval": base + 5, "perturbed": []}
+                          {"op": "reset"}, {"op": "keys", "n": root, "o": ro}, {"op": "evaluate", "n": root, "o": ro},
+                          {"op": "reset"}, {"op": "fingerprint", "n": root, "o": o}]
+            chk = {"K": sorted(K), "o": o, "keys": base + 1, "eval": base + 2, "rkeys": base + 4, "reval": base + 5,
+                   "fp": base + 7, "perturbed": [], "inside": []}
+            # a change of the value under a reported key must change the fingerprint
+            scal = [k for k in sorted(K) if ref_get(k, o)[0] == "found" and not isinstance(ref_get(k, o)[1], (dict, list))
+                    and not any(sg.isdigit() for sg in k.split("."))]
+            for k in rng.sample(scal, min(2, len(scal))):
+                old_v = ref_get(k, o)[1]
+                new_v = rng.choice([v for v in [0, 1, 2, 5, "x", "y", None] if not (v == old_v and type(v) == type(old_v))])
+                o4 = copy.deepcopy(o)
+                _put(o4, k, new_v)
+                o4 = sort_json(o4)
+                b4 = len(p2["ops"])
+                p2["ops"] += [{"op": "reset"}, {"op": "keys", "n": root, "o": o4}, {"op": "fingerprint", "n": root, "o": o4}]
+                chk["inside"].append({"keys": b4 + 1, "fp": b4 + 2, "key": k, "o": o4})
             # perturbations outside K must leave keys (hence the fingerprint) and the outcome unchanged
             outside = [k for k in o.keys() if not any(x == k or x.startswith(k + ".") for x in K)]
             for _ in range(2):
@@ -611,8 +628,9 @@ def c03_phase2(items, impl, model, rng, tier) -> List[Item]:
                     o3.pop(rng.choice(outside), None)
                 o3 = sort_json(o3)
                 b3 = len(p2["ops"])
-                p2["ops"] += [{"op": "reset"}, {"op": "keys", "n": root, "o": o3}, {"op": "evaluate", "n": root, "o": o3}]
-                chk["perturbed"].append({"keys": b3 + 1, "eval": b3 + 2, "o": o3, "mode": mode})
+                p2["ops"] += [{"op": "reset"}, {"op": "keys", "n": root, "o": o3}, {"op": "evaluate", "n": root, "o": o3},
+                              {"op": "reset"}, {"op": "fingerprint", "n": root, "o": o3}]
+                chk["perturbed"].append({"keys": b3 + 1, "eval": b3 + 2, "fp": b3 + 4, "o": o3, "mode": mode})
             checks.append(chk)
         if checks:
             out.append((p2, {"c03": checks, "phase": 2}))
@@ -642,8 +660,23 @@ def c03_oracle(prog, meta, impl, model):
         if not same_outcome_modulo_frames(a_eval, r_eval):
             out.append(("evaluating on the options restricted to keys() gives a different outcome", chk["reval"],
                         {"keys": sorted(K), "full": a_eval.get("r"), "restricted": r_eval.get("r")}))
+        fp = impl[chk["fp"]] if "fp" in chk else None
+        if fp is not None and is_ok(fp):
+            expect = [{k: ref_get(k, chk["o"])[1]} for k in sorted(K)]
+            if dumps(fp["r"][1]) != dumps(expect):
+                out.append(("the fingerprint is not the sorted list of the reported keys with their values", chk["fp"],
+                            {"keys": sorted(K), "fingerprint": fp["r"][1], "expected": expect}))
+            for q in chk.get("inside", []):
+                qk, qf = keyset(impl[q["keys"]]), impl[q["fp"]]
+                if qk is not None and qk == K and is_ok(qf) and dumps(qf["r"][1]) == dumps(fp["r"][1]):
+                    out.append(("the value under a reported key differs but the fingerprint is the same", q["fp"],
+                                {"key": q["key"], "fingerprint": fp["r"][1], "options": q["o"]}))
         for p in chk["perturbed"]:
             pk = keyset(impl[p["keys"]])
+            if pk is not None and pk == K and fp is not None and is_ok(fp) and "fp" in p and is_ok(impl[p["fp"]]) \
+                    and dumps(impl[p["fp"]]["r"][1]) != dumps(fp["r"][1]):
+                out.append(("dictionaries that agree on every reported key have different fingerprints", p["fp"],
+                            {"keys": sorted(K), "a": fp["r"][1], "b": impl[p["fp"]]["r"][1]}))
             if pk is not None and pk == K:
                 # same keys and (by construction) same values under them => same fingerprint => same outcome
                 if not same_outcome_modulo_frames(a_eval, impl[p["eval"]]):
@@ -676,7 +709,7 @@ def effect_reads_program(prog):
 
 
 def c03_classify(prog, meta, what):
-    return effect_reads_program(prog) or catch_unsafe_program(prog)
+    return effect_reads_program(prog) or catch_unsafe_program(prog) or brace_resubstitution_program(prog)
 
 
 C03 = CoreProp("C03", ("keys", "eval"), c03_programs, c03_oracle, phase2=c03_phase2, classify=c03_classify,
@@ -738,6 +771,17 @@ def c04_programs(rng, tier) -> List[Item]:
                 o = sort_json(o)
                 P.evaluate(opt, o)
                 meta["c04"].append({"op": len(P.ops) - 1, "key": key, "dflt": d, "domain": domspec, "opt": opt})
+        # one long-lived Option whose domain is itself an option with a default: first without, then with ALLOWED
+        allowed_default = [None, False, 0, 1, "", "x", "a", "b"]
+        dom_opt = P.option("ALLOWED", dflt=P.value(allowed_default))
+        seq_opt = P.option("A", dom=dom_opt)
+        for v in rng.sample([None, False, 0, 1, "", "x", "a"], 3):
+            o1 = sort_json({"A": v})
+            narrowed = [x for x in allowed_default if not (x == v)]
+            o2 = sort_json({"A": v, "ALLOWED": narrowed})
+            for oo in (o1, o2, o1):
+                P.evaluate(seq_opt, oo)
+                meta["c04"].append({"op": len(P.ops) - 1, "key": "A", "dflt": "none", "domain": "ALLOWED", "opt": seq_opt})
         # Option.set
         for key, v, _ in combos[chunk_start:chunk_start + 4]:
             meta.setdefault("sets", []).append({"key": key, "value": v})
@@ -1186,7 +1230,15 @@ def hist_agree(rng, cfg, g: G, meta, n_dicts=5):
     root = g.expr("any", rng.randint(1, cfg.max_depth))
     fam = dict_family(rng, cfg, n_dicts)
     recs = []
-    for o in fam:
+    extra = []
+    for o in fam[:2]:
+        o2 = copy.deepcopy(o)
+        o2["LABREA"] = {"EFFECTS": {"DISABLED": True}, "CACHE": {rng.choice(["DISABLED", "DISABLE"]): True}}
+        ks = [k for k in o2 if k != "LABREA"]
+        if ks:
+            o2.pop(rng.choice(ks))
+        extra.append(sort_json(o2))
+    for o in fam + (extra if cfg.switches else []):
         P.raw_op(op="reset")
         b = len(P.ops)
         for op in ("validate", "keys", "explain", "evaluate"):
